@@ -194,6 +194,22 @@ def r10_2(ctx, f, pv, L, recs, V, Ln, meta_of):
             good = o is not None and okw and entails(cs + L.range_constraints(cs + [o, off]), o - off) and entails(cs + L.range_constraints(cs + [o, off]), off - o)
             ctx.check(R, good, '%s:%s' % (tag, field), 'for %s files the %s word is read at offset %s instead of %s' % (tag, field, o, off), fn=f, detail={'offset': repr(o), 'expected': repr(off)})
         ck = m.get('checksum')
+        if ck is not None and ck[0] == 'call' and isinstance(ck[1], str) and ck[1].rsplit('::', 1)[-1] in ('then', 'then_some') and 'bool' in ck[1] and len(ck[2]) == 2:
+            # `(version > 2).then(|| read ..)`: Some(closure result) where the condition holds on this path, None where it cannot
+            from absint import bool_constraints
+            import vsplit
+            bc1, bc0 = bool_constraints(L, ck[2][0], 1), bool_constraints(L, ck[2][0], 0)
+            can_some = bc1 is not None and L.feasible(cs + bc1, nes)
+            can_none = bc0 is not None and L.feasible(cs + bc0, nes)
+            if can_none and not can_some:
+                ck = ('agg', 'std::option::Option::None', ())
+            elif can_some and not can_none:
+                if ck[1].endswith('then_some'):
+                    ck = ('agg', 'std::option::Option::Some', (('0', ck[2][1]),))
+                else:
+                    cc = vsplit.closure_cases(ctx.lib, ck[2][1], [], 0) if ck[2][1][0] == 'closure' else None
+                    if cc and len(cc) == 1:
+                        ck = ('agg', 'std::option::Option::Some', (('0', pv.inline(cc[0][1])),))
         if old:
             ctx.check(R, ck is not None and ck[0] == 'agg' and ck[1].endswith('::None'), 'v<=2:checksum', 'a version <= 2 file is given a checksum: %s' % fmt(ck)[:80], fn=f)
         else:
